@@ -115,6 +115,9 @@ def analyse_locale(args):
                         out.append((locale, normalize, k, w, "S-A", why))
                     elif t in d and d[t] != k:
                         out.append((locale, normalize, k, w, "S-B", "the rewritten name %r is a key meaning %r" % (t, d[t])))
+                    elif t in m.ex.default_skip_tokens:
+                        out.append((locale, normalize, k, w, "S-D", "the rewritten name %r is one of the default SKIP_TOKENS %r: the dictionary drops it "
+                                    "before the locale's vocabulary is asked" % (t, m.ex.default_skip_tokens)))
                     elif split_rx is not None:
                         mm = split_rx.search(t)
                         torn = next((x for x in split_rx.finditer(t) if not x.group(0) and 0 < x.start() < len(t)), None)
